@@ -234,10 +234,19 @@ def run(rep, tier):
                   '_isInitialized': 'set by init(); a reset engine is re-initialised through InterpreterImpl::init',
                   '_exitSets': 'lazily filled cache that is a function of the document only',
                   '_exitSetCache': 'lazily filled cache that is a function of the document only'}
+        # run state that other mutators of the engine write and step() reads (e.g. the cancel request)
+        read_by_step = {n['ref'].get('name') for n in f.walk() if n['k'] == 'MemberExpr' and n['ref'].get('rec') == cls}
+        for m in [f_ for f_ in fb.funcs.values() if f_.rec == cls]:
+            mname = m.q.split('::')[-1]
+            if m is f or mname in ('reset', 'init', 'deserialize', eng, '~' + eng) or mname.startswith('operator'):
+                continue
+            for name, node in written_members(m, cls).items():
+                if name in read_by_step and name not in wr:
+                    wr[name] = node
         persistent = sorted(set(wr) - scratch - set(exempt))
         rep.minimum('R10.3', len(persistent), 5, 'persistent run-state members of ' + eng)
         for name in persistent:
-            rep.check(name in rwr, 'R10.3', '%s|%s' % (eng, name), locstr(wr[name]), 'member %s is mutated by step() across steps and %s by reset()' % (name, 're-initialised' if name in rwr else 'NOT re-initialised'))
+            rep.check(name in rwr, 'R10.3', '%s|%s' % (eng, name), locstr(wr[name]), 'member %s is run state (written by step() or another mutator, read by step()) and %s by reset()' % (name, 're-initialised' if name in rwr else 'NOT re-initialised'))
         rep.sample({'engine': eng, 'persistent': persistent, 'scratch_cleared_at_top': sorted(scratch), 'reset_writes': sorted(rwr)})
     rs = fb.fn('uscxml::InterpreterImpl::reset')
     reset_calls = {strip(n['c'][0]['c'][0])['ref']['name'] for n in rs.walk() if n['k'] == 'CXXMemberCallExpr' and n['callee']['q'].split('::')[-1] == 'reset' and n.get('c') and n['c'][0].get('c') and strip(n['c'][0]['c'][0])['k'] == 'MemberExpr'}
